@@ -62,7 +62,7 @@ static void head_(void *node_pp, void *depth_p, void *rk_p) {
   IN_shape = nondet_uint(); __CPROVER_assume(IN_shape <= 2);
   uint64_t ch = nv_child(&GV0, G_b);
   if (IN_shape == 0) __CPROVER_assume(ch == 0);
-  else if (IN_shape == 1) __CPROVER_assume(ch != 0 && (ch & 7) != T_LEAF && !adt_known(ch) && (ch & 7) <= 4);
+  else if (IN_shape == 1) __CPROVER_assume(ch != 0 && (ch & 7) != T_LEAF && (ch >> 3) >= ADT_MAX && (ch & 7) <= 4);
   else {
     __CPROVER_assume(ch != 0);                                           /* a child exists; make it a materialised leaf on K's path */
     G_leaf = mk_leaf_obj(3);
@@ -94,8 +94,8 @@ static void head_(void *node_pp, void *depth_p, void *rk_p) {
 #endif
   }
   { uint64_t qc = nv_child(&GV0, kbyte(IN_Q, IN_depth + G_L)), kc = nv_child(&GV0, G_b);     /* every child that is not materialised here is an opaque subtree */
-    { uint8_t qb_ = kbyte(IN_Q, IN_depth + G_L); __CPROVER_assume(qc == 0 || (qc == G_leafw && qb_ == G_b && G_leaf) || (qc == G_survw && G_surv && qb_ == G_survb) || !adt_known(qc)); }   /* a tree, not a DAG: a materialised child hangs under exactly its own key byte */ __CPROVER_assume(kc == 0 || kc == G_leafw || !adt_known(kc));
-    if (G_surv && (G_survw & 7) != T_LEAF) { struct nview sv; nv_load(&sv, G_surv, SURV); uint64_t sc = nv_child(&sv, kbyte(IN_Q, IN_depth + G_L + 1 + NV_PREFIX_LEN(&sv))); __CPROVER_assume(sc == 0 || !adt_known(sc)); } }
+    { uint8_t qb_ = kbyte(IN_Q, IN_depth + G_L); __CPROVER_assume(qc == 0 || (qc == G_leafw && qb_ == G_b && G_leaf) || (qc == G_survw && G_surv && qb_ == G_survb) || (qc >> 3) >= ADT_MAX); }   /* a tree, not a DAG: a materialised child hangs under exactly its own key byte */ __CPROVER_assume(kc == 0 || kc == G_leafw || (kc >> 3) >= ADT_MAX);
+    if (G_surv && (G_survw & 7) != T_LEAF) { struct nview sv; nv_load(&sv, G_surv, SURV); uint64_t sc = nv_child(&sv, kbyte(IN_Q, IN_depth + G_L + 1 + NV_PREFIX_LEN(&sv))); __CPROVER_assume(sc == 0 || (sc >> 3) >= ADT_MAX); } }
   if (G_leaf) { G_leaf_key = LEAF_KEY(G_leaf); G_leaf_sz = LEAF_ALLOC_SIZE(LEAF_VLEN(G_leaf)); }
   G_before_Q = G_in_scope ? sub_ans(G_old, IN_depth, IN_Q, 2) : NONE;
   G_before_K = sub_ans(G_old, IN_depth, IN_K, 2);
@@ -103,6 +103,7 @@ static void head_(void *node_pp, void *depth_p, void *rk_p) {
 #ifdef VERIF_CFG_STATS
   __CPROVER_assume(S0.mem < (1ULL << 60) && S0.mem >= n_size(KIND) + LEAF_ALLOC_SIZE(3) && S0.cnt[KIND] >= 1 && S0.cnt[0] >= 1);     /* statistics invariant instances: the materialised nodes are accounted for */
   for (unsigned i = 0; i < 5; i++) __CPROVER_assume(S0.cnt[i] < (1ULL << 60));
+  for (unsigned i = 0; i < 4; i++) __CPROVER_assume(S0.grow[i] < (1ULL << 60) && S0.grow[i] >= S0.cnt[i + 1] && S0.shrink[i] <= S0.grow[i] && S0.grow[i] - S0.shrink[i] >= S0.cnt[i + 1]);   /* counter invariants of the index: every inner node alive was grown into and not yet shrunk away */
   for (unsigned i = 0; i < 4; i++) __CPROVER_assume(S0.shrink[i] < (1ULL << 60));
 #endif
 }
